@@ -624,6 +624,11 @@ func c01Stack(t *testing.T, prop string) {
 		}
 		if !res.outage && !res.slowConsumer && res.downLen >= 5000 && rng.Intn(4) == 0 {
 			res.tailCut = true
+			if rng.Intn(3) != 0 {
+				// nothing much to upload: the bridge has read it all, writes its last bytes and closes at once - while
+				// the carrier is already gone
+				res.upLen = rng.Intn(50)
+			}
 		}
 		if s%2 == 0 {
 			res.idGroup = idBase
